@@ -16,6 +16,11 @@ CHECKS = {
          "DESIGN.md §4 C05",
          "Every single-character deletion/insertion/replacement (104 characters) of a corpus holding one rendering of every grammar production and of the example sources, all token strings up to length 4 (quick) / 5 (thorough) over 26 tokens, and all prefix+suffix splices of the examples are parsed by the real parser; whenever no diagnostic is reported the re-rendered tokens must equal the input (modulo letter case and CRLF). Exhaustive for that space, which contains the stray `)` / lone CR / control / non-ASCII cases the end-of-file rule mishandled.",
          "Not all byte strings: single edits of a fixed corpus and short token strings (small-scope hypothesis). Comparison modulo Unicode letter case and CRLF on both sides."),
+ "C08": ("exploration",
+         "deviation-bounded exhaustive enumeration of trivia/case variants against the base program's meaning (differential on the real assembler)",
+         "DESIGN.md §4 C08",
+         "For 39 base programs covering every statement kind (plus 8 with diagnostics) every single deviation - 5 single-line trivia at every ws slot, 8 at every mws slot, case flip of every mnemonic/directive/register/hex literal/keyword, whole-file CRLF and leading/trailing trivia - and, in thorough, every pair of deviations at most 6 terminals apart is assembled and its bytes, symbol table and normalised diagnostics compared with the base. Exhaustive for deviation bound 1 (quick) / 2 (thorough).",
+         "Trivia slots come from the harness grammar (read off the parser); literals and strings are atomic; the slot after a prefix minus is excluded because `- x` is the scope identifier `-` in mos's grammar (see DESIGN.md false alarms)."),
 }
 
 NOT_YET = {
